@@ -1,6 +1,7 @@
 #!/bin/sh
-# usage: tools_seedtest.sh <patch.diff> <prop> [extra vcheck args]; applies patch to /repo, runs check, reverts
+# usage: tools_seedtest.sh <patch.diff> <prop> [extra vcheck args]; applies patch to /repo, runs check, reverts the patch
 P=$1; shift; PROP=$1; shift
+if [ -n "$(git -C /repo status --porcelain --untracked-files=no)" ]; then echo "REFUSING: /repo has uncommitted tracked changes"; exit 8; fi
 git -C /repo apply "$P" || exit 9
 ( cd /verif && ./vcheck $PROP "$@" 2>&1 | grep -E "VIOLATION|KNOWN|HARNESS-ERROR|tier=|NOTE" | cut -c1-400 )
-git -C /repo checkout -- .
+git -C /repo apply -R "$P"
